@@ -74,7 +74,10 @@ def run(tier):
             dropped += 1
             continue
         t = sce.Template(desc, src, [("a", "int"), ("b", "int")], "True", observe="trace+globals", budget=300)
-        t.sem_configs = [common.SEM_CONFIGS[(k + seed) % 4]] if tier == "quick" else [common.SEM_CONFIGS[k % 4], common.SEM_CONFIGS[(k + 2) % 4]]
+        # (thorough: two configurations for the control cells and the nested pairs, one rotating
+        # configuration for the 16 000 matrix cells -- sized after the first end-to-end run)
+        two = tier == "thorough" and (desc.startswith("C09:%s:" % fam.CONTROL) or desc.startswith(("C09:nest", "C09:seq")))
+        t.sem_configs = [common.SEM_CONFIGS[k % 4], common.SEM_CONFIGS[(k + 2) % 4]] if two else [common.SEM_CONFIGS[(k + seed) % 4]]
         tpls.append(t)
     with common.Workdir("c09") as wd:
         d = sce.Driver(rep, known, wd, tier, per_cond_timeout=30 if tier == "quick" else 90)
